@@ -116,10 +116,43 @@ def read(fb, text, max_tokens=60):
     opt = r.fields[0] if r.fields else None
     if isinstance(opt, Enum) and opt.variant == 0 and not opt.fields:
         return ("none",)
+    read.last_raw = opt.fields[0] if isinstance(opt, Enum) and opt.fields else None
     try:
         return ("datum", render(fb, opt.fields[0]), ts.pos, len(ts.items))
     except (ValueError, AttributeError, IndexError, TypeError) as e:
         return ("stuck", "cannot render the datum (%s)" % e)
+
+
+read.last_raw = None
+
+
+def literal_value(fb, text):
+    """the value the evaluator makes of the datum `text` denotes (the reader, then the interpreter's own conversion of a literal
+    datum into a value): ("value", abstract Value) | ("error", kind) | ("stuck", why)"""
+    r = read(fb, text + " ")
+    if r[0] != "datum":
+        return r if r[0] in ("stuck", "error") else ("stuck", repr(r))
+    if r[2] != r[3]:
+        return ("stuck", "the text is read as more than one datum")
+    raw = read.last_raw
+    try:
+        rl = fb.find("interpreter::interpreter::Interpreter::read_literal")
+    except mir.AnchorMissing as e:
+        return ("stuck", str(e))
+    if getattr(rl, "missing", False) or raw is None:
+        return ("stuck", "no read_literal on this tree")
+    try:
+        mc = Machine(fb, max_visits=80, budget=6000)
+        v = mc.run(rl, [raw, UNKNOWN][:rl.arg_count])
+    except (absint.Stuck, absint.Loop) as e:
+        return ("stuck", str(e))
+    if any(e[0] == "panic" for e in mc.events):
+        return ("panic", [e[1] for e in mc.events if e[0] == "panic"][0])
+    if isinstance(v, Enum) and getattr(v, "name", None) == "Ok" and v.fields:
+        return ("value", v.fields[0])
+    if isinstance(v, Enum) and getattr(v, "name", None) == "Err":
+        return ("error", _err_kind(fb, v))
+    return ("stuck", "result %r" % (v,))
 
 
 def _err_kind(fb, r):
